@@ -543,6 +543,29 @@ func TestVerifC01(t *testing.T) {
 func c01RunSet(rep *verifkit.Report, rng *rand.Rand, idx, confsPerSet, queriesPerConf int,
 	svcIDs []string, svcRules map[string][]*rules.NetworkRule, svcNames map[string][]string) {
 	rs := c01GenRules(rng)
+	if rng.Intn(3) == 0 {
+		// Rules about names that blocked services cover: allow-list entries
+		// and exceptions must win over a blocked service like over any other
+		// blocking rule.
+		for k := 0; k < 1+rng.Intn(2); k++ {
+			ns := svcNames[svcIDs[rng.Intn(len(svcIDs))]]
+			n := ns[rng.Intn(len(ns))]
+			text, place := "||"+n+"^", "allow"
+			switch rng.Intn(4) {
+			case 0:
+				text, place = "@@||"+n+"^", "custom"
+			case 1:
+				text, place = "@@||"+n+"^$important", "block2"
+			case 2:
+				text, place = "||"+n+"^", "block1"
+			}
+			if parsed, perr := rules.NewRule(text, 1); perr == nil && parsed != nil {
+				if nr, ok := parsed.(*rules.NetworkRule); ok {
+					rs = append(rs, &c01Rule{Text: text, Place: place, net: nr})
+				}
+			}
+		}
+	}
 	var texts []string
 	for _, r := range rs {
 		texts = append(texts, r.Place+":"+r.Text)
